@@ -225,6 +225,9 @@ class C06(Property):
             for c in tc:
                 if c["nin"] and c.get("initial_pull") and rnd.random() < 0.3:
                     c["push_deps"] = sorted(rnd.sample(range(c["nin"]), rnd.randint(1, c["nin"])))
+                elif c["nin"] and c["nout"] and rnd.random() < 0.4:
+                    # the outputs' metadata (and so their start time) is taken from what the first input exchanged
+                    c["info_from_input"] = 0
             return spec
         return gen_connect_spec(rnd)
 
@@ -343,6 +346,8 @@ class C06(Property):
                 out.count("initial_publications_checked")
                 if own not in times:
                     out.viol("missing_publication_at_own_start", f"{c['name']}.{oname}: no initial publication at its own start {hrs(own)}h (published at {[hrs(t) for t in times]})", spec=spec)
+                if c.get("info_from_input") is not None and own != start:
+                    out.count("late_starters_with_output_time_taken_from_an_input")
                 if own != start:
                     out.count("double_initial_publications_expected")
                     if start not in times:
@@ -372,7 +377,7 @@ class C06(Property):
         out.key = "off:" + hashlib.md5(repr(spec).encode()).hexdigest()[:12]
 
     def coverage_gaps(self, counters, tier):
-        need = ["protocol_cases", "offset_cases", "converged", "stall_errors", "stall_errors_with_2plus_stuck", "stall_errors_with_connected_bystanders",
+        need = ["protocol_cases", "offset_cases", "late_starters_with_output_time_taken_from_an_input", "converged", "stall_errors", "stall_errors_with_2plus_stuck", "stall_errors_with_connected_bystanders",
                 "connect_calls_judged", "initial_pulls_checked", "double_initial_publications_expected", "iterations_3", "iterations_5"]
         return [f"{k} never observed" for k in need if not counters.get(k)]
 
